@@ -231,7 +231,7 @@ def _worker(args):
         stored = {}
         for name, body in objects.items():
             r = s.req("PUT", s.url("cal", name), {"Content-Type": B.CT_ICS}, body)
-            if dav.effective_status(r) not in (201, 204):
+            if dav.effective_status(r) not in (200, 201, 204):
                 vio("object-refused:%s" % name, "grid object %s was refused with %s" % (name, dav.effective_status(r)), {"body": body})
                 continue
             stored[name] = s.req("GET", s.url("cal", name)).body
@@ -248,7 +248,7 @@ def _worker(args):
             stored = {}
             for n_, b_ in zip(names_, bodies_[1:] + bodies_[:1]):
                 r_ = s.req("PUT", s.url("cal", n_), {"Content-Type": B.CT_ICS}, b_)
-                if dav.effective_status(r_) in (201, 204):
+                if dav.effective_status(r_) in (200, 201, 204):
                     g_ = s.req("GET", s.url("cal", n_))
                     stored[n_] = g_.body
                     if g_.status != 200 or not ical.same_calendar(g_.body, b_):
